@@ -438,13 +438,26 @@ def c02_7(ctx: Ctx) -> RuleResult:
                 mask_p = ("param", f.qualname, p)
         if mask_p is None:
             raise AnalysisError("mask parameter not found in the gradient computation")
-        is_exp = lambda a: _expanded_inner(ctx, f, a, mask_p) is not None  # noqa: E731
+        # is this construction reached only with / without a mask?
+        from ..util import bool_nnf, path_condition
+
+        mstate = None
+        st_ = c
+        while parent(st_) is not None and not isinstance(st_, ast.stmt):
+            st_ = parent(st_)
+        pc_ = path_condition(ctx, f, st_)
+        if pc_:
+            g_ = bool_nnf(("bool", "and", tuple(c_ if p_ else ("unary", "not", c_) for c_, p_ in pc_)))
+            for it in (g_[1] if g_[0] == "and" else [g_]):
+                if it[0] == "lit" and it[1] == ("cmp", "is", mask_p, ("const", None)):
+                    mstate = it[2]
+        is_exp = lambda a: _expanded_inner(ctx, f, a, mask_p, mstate) is not None  # noqa: E731
         for name in ("weighted_objective", "objectives", "constraints"):
             v = kw.get(name)
             if v is None:
                 res.add(f, c, f"Gradients.{name} is passed", False, construct=f"{f.name}: {name} passed")
                 continue
-            inner_of = [_expanded_inner(ctx, f, a, mask_p) for a in _value_alts(v, is_exp)]
+            inner_of = [_expanded_inner(ctx, f, a, mask_p, mstate) for a in _value_alts(v, is_exp)]
             ok = bool(inner_of) and all(x is not None for x in inner_of)
             res.add(f, c, f"Gradients.{name} is expanded to full width with zeros at the fixed variables, using the variable mask", ok,
                     "" if ok else f"`{name}` is `{show(v, 80)}`: entries of fixed variables are not exactly zero / misplaced", construct=f"{f.name}: expand {name}")
@@ -465,7 +478,7 @@ def c02_7(ctx: Ctx) -> RuleResult:
         wo = kw.get("weighted_objective")
         inner = None
         for a in _value_alts(wo, is_exp) if wo else []:
-            inner = _expanded_inner(ctx, f, a, mask_p) or inner
+            inner = _expanded_inner(ctx, f, a, mask_p, mstate) or inner
         ok = False
         if inner is not None:
             n_ = norm(inner)
@@ -474,7 +487,7 @@ def c02_7(ctx: Ctx) -> RuleResult:
             m = match(n_, ref) or match(n_, ref[2][0])
             if m is not None:
                 og = kw.get("objectives")
-                ok = any(norm(_expanded_inner(ctx, f, a, mask_p) or NONE_T) == m["g"] for a in _value_alts(og, is_exp))
+                ok = any(norm(_expanded_inner(ctx, f, a, mask_p, mstate) or NONE_T) == m["g"] for a in _value_alts(og, is_exp))
         res.add(f, c, "weighted-objective gradient == sum_k objective_weight_k * objective_gradient_k (axis 0) of the reported objective gradients", ok,
                 "" if ok else f"weighted gradient is `{show(inner, 120) if inner else '?'}`", construct=f"{f.name}: weighted gradient")
     res.floor = 6
@@ -496,9 +509,19 @@ def _value_alts(t: Term, stop=None) -> list:
 NONE_T = ("const", None)
 
 
-def _expanded_inner(ctx: Ctx, f: Func, a: Term, mask_p: Term):
+def _expanded_inner(ctx: Ctx, f: Func, a: Term, mask_p: Term, mstate=None):
     """``a`` is `g if mask is None else zeros(g.shape[:-1] + (mask.size,))[..., mask] := g`
-    (written in place or through a helper): returns g, else None."""
+    (written in place or through a helper): returns g, else None.  ``mstate`` tells whether the
+    construction site itself is only reached with `mask is None` (True: the plain value is the
+    expansion) or `mask is not None` (False: the value must be the scatter)."""
+    if mstate is True and a[0] not in ("ifexp", "phi", "update"):
+        return a
+    if mstate is False and a[0] == "update":
+        base_, idx_, val_ = a[1], a[3], a[4]
+        if (a[2] == ("root",) and base_[0] == "call" and base_[1] == ("global", "numpy.zeros") and contains(base_, lambda s: s == ("attr", mask_p, "size"))
+                and idx_ == ("tuple", (("const", Ellipsis), mask_p))):
+            return val_
+        return None
     if a[0] == "call":
         hs = ctx.cg.resolve_fn(a[1], f)
         if hs and all(_is_expander(ctx, h) for h in hs) and len(a[2]) == 2 and a[2][1] == mask_p:
